@@ -6,10 +6,10 @@ export PATH=/opt/veriftools/go1.26.8/bin:$PATH GOTOOLCHAIN=local GOFLAGS=-mod=mo
 unset GOWORK
 out=${1:-/tmp/matrix}; glob=${2:-*}
 mkdir -p $out
-props=$(./bin/mlrlint -list)
+props=$(${MLRLINT:-./bin/mlrlint} -list)
 run() {
   s=$1; p=$2; out=$3
-  ./bin/mlrlint -child -prop $p -repo ${VERIF_REPO:-/repo} -verif "$(pwd)" -patch seeded/$s/patch.diff 2>&1 | grep '^CHILD-RESULT' | sed 's/^CHILD-RESULT //' > $out/$s.$p.json
+  ${MLRLINT:-./bin/mlrlint} -child -prop $p -repo ${VERIF_REPO:-/repo} -verif "$(pwd)" -patch seeded/$s/patch.diff 2>&1 | grep '^CHILD-RESULT' | sed 's/^CHILD-RESULT //' > $out/$s.$p.json
 }
 export -f run
 for d in seeded/$glob; do s=$(basename $d); for p in $props; do echo "$s $p $out"; done; done | xargs -P 6 -L 1 bash -c 'run $0 $1 $2'
